@@ -929,7 +929,7 @@ mutant("c04-addall-no-rooms-side", "C04", "C04-D1", "adapter/adapter_memory.go",
 		}""",
        """		_ = r""")
 mutant("c04-onclose-no-leaveall", "C04", "C04-D5", "server_socket.go",
-       "		wg.WaitTimeout(10 * time.Second)\n		s.leaveAll()\n", "		wg.WaitTimeout(10 * time.Second)\n")
+       "		s.leaveAll()\n\n		s.nsp.remove(s)", "		s.nsp.remove(s)")
 mutant("c04-emit-swaps-rooms-except", "C04", "C04-D3", "adapter/broadcast_operator.go",
        "	opts.Rooms = b.rooms\n	opts.Except = b.exceptRooms\n", "	opts.Rooms = b.exceptRooms\n	opts.Except = b.rooms\n")
 mutant("c04-delete-keeps-empty-room-check", "C04", "C04-D1", "adapter/adapter_memory.go",
@@ -1703,24 +1703,21 @@ mutant("c15-volatile-enters-retry-queue", "C15", "C15-D4", "client_socket.go",
 mutant("c19-buffered-drain-token", "C19", "C19-D6", "packet_queue.go",
        "		drain:  make(chan struct{}),", "		drain:  make(chan struct{}, 1),")
 mutant("c19-queue-read-before-swap", "C19", "C19-D7", "engine.io/server_socket.go",
-       """	s.transportMu.Lock()
-	defer s.transportMu.Unlock()
-
-	old := s.transport
-	s.transport = t
-	old.Discard()
-
-	// Get the queued packets from the old transport and send them with the new one.
-	qp := old.QueuedPackets()""",
-       """	qp := s.transport.QueuedPackets()
+       """	c.Set(s.onPacket, s.onTransportClose)
 
 	s.transportMu.Lock()
 	defer s.transportMu.Unlock()
+""",
+       """	c.Set(s.onPacket, s.onTransportClose)
 
-	old := s.transport
-	s.transport = t
-	old.Discard()
+	qp := s.transport.QueuedPackets()
+
+	s.transportMu.Lock()
+	defer s.transportMu.Unlock()
 """)
+MUTANTS[-1]["then"] = ("""	// Get the queued packets from the old transport and send them with the new one.
+	qp := old.QueuedPackets()
+""", "")
 
 # ---------------------------------------------------------------- C03 (round 3)
 mutant("c03-ack-id-read-then-advanced-later", "C03", "C03-D6", "namespace.go",
